@@ -56,6 +56,8 @@ Definition family_passes (n : nat) : bool :=
 Lemma small_family_passes : family_passes 1 && family_passes 2 && family_passes 3 = true.
 Proof. vm_compute. reflexivity. Qed.
 
+Global Opaque family_passes.
+
 (* 6 * 2  +  36 * 16  +  216 * 343  =  74 676 functions *)
 Theorem ssa_model_passes_small : forall n ops outs, (1 <= n <= 3)%nat ->
   In ops (lists_of n alphabet) -> In outs (lists_of n (out_choices n)) ->
@@ -64,9 +66,13 @@ Proof.
   intros n ops outs Hn Hops Houts. pose proof small_family_passes as H.
   apply andb_prop in H. destruct H as [H H3]. apply andb_prop in H. destruct H as [H1 H2].
   assert (Hp : family_passes n = true).
-  { destruct n as [|[|[|[|n]]]]; try assumption; exfalso; destruct Hn as [Ha Hb];
-      [inversion Ha|repeat apply le_S_n in Hb; inversion Hb]. }
-  unfold family_passes in Hp. rewrite forallb_forall in Hp. specialize (Hp _ Hops).
+  { destruct n as [|[|[|[|n]]]].
+    - exfalso. destruct Hn as [Hn _]. inversion Hn.
+    - exact H1.
+    - exact H2.
+    - exact H3.
+    - exfalso. destruct Hn as [_ Hn]. do 3 apply le_S_n in Hn. inversion Hn. }
+  Local Transparent family_passes. unfold family_passes in Hp. rewrite forallb_forall in Hp. specialize (Hp _ Hops).
   rewrite forallb_forall in Hp. specialize (Hp _ Houts). unfold passes in Hp.
   destruct (ssa_model (mk_fun ops outs)) as [f'|e|]; try discriminate. exists f'. auto.
 Qed.
